@@ -72,6 +72,10 @@ pub fn region_pred(name: &str, cell: &crate::families::Cell) -> bool {
             let q = p[0].min(1.0 - p[0]);
             cell.ip[0] >= (1u64 << 53) && q > 0.0 && (n * q).sqrt() < 4096.0 * n * 2f64.powi(-52)
         }
+        // Dirichlet<f32> on the gamma path (some alpha > 0.1) with every alpha below 0.2
+        "dirichlet_f32_gamma_path_small_alpha" => {
+            cell.ft == Ft::F32 && !p.is_empty() && p.iter().any(|&a| a > 0.1f32 as f64) && p.iter().all(|&a| a < 0.2)
+        }
         _ => false,
     }
 }
@@ -127,6 +131,8 @@ pub struct Ctx {
     pub t0: Instant,
     pub evals: AtomicU64,
     nontrivial: Mutex<HashSet<u64>>,
+    /// non-trivial cases that are distinct by construction (enumerations), counted without storing keys
+    nontrivial_counted: AtomicU64,
     samples: Mutex<Vec<Value>>,
     sample_cap: usize,
     classes: Mutex<BTreeMap<String, u64>>,
@@ -146,6 +152,7 @@ impl Ctx {
             t0: Instant::now(),
             evals: AtomicU64::new(0),
             nontrivial: Mutex::new(HashSet::new()),
+            nontrivial_counted: AtomicU64::new(0),
             samples: Mutex::new(vec![]),
             sample_cap: 12,
             classes: Mutex::new(BTreeMap::new()),
@@ -166,7 +173,11 @@ impl Ctx {
         self.nontrivial.lock().unwrap().insert(key);
     }
     pub fn nontrivial_count(&self) -> usize {
-        self.nontrivial.lock().unwrap().len()
+        self.nontrivial.lock().unwrap().len() + self.nontrivial_counted.load(Ordering::Relaxed) as usize
+    }
+    /// count `n` non-trivial cases that are pairwise distinct by construction of the enumeration
+    pub fn nontrivial_add(&self, n: u64) {
+        self.nontrivial_counted.fetch_add(n, Ordering::Relaxed);
     }
     pub fn class(&self, name: &str, n: u64) {
         *self.classes.lock().unwrap().entry(name.to_string()).or_insert(0) += n;
@@ -272,6 +283,18 @@ impl Ctx {
         for (k, v) in self.extra.lock().unwrap().iter() {
             cov.insert(k.clone(), v.clone());
         }
+        // the checked-profile pass (debug assertions + overflow checks on) runs first and leaves its summary
+        if std::env::var("VERIF_PROFILE").map(|v| v != "checked").unwrap_or(true) {
+            let cp = format!("{VERIF_DIR}/evidence/.{}.checked.json", self.property);
+            if let Ok(t) = std::fs::read_to_string(&cp) {
+                if let Ok(v) = serde_json::from_str::<Value>(&t) {
+                    cov.insert("checked_profile_pass".into(), json!({
+                        "evaluations": v["coverage"]["evaluations"], "distinct_nontrivial": v["coverage"]["distinct_nontrivial"],
+                        "violations": v["violations"], "wall_s": v["wall_s"]}));
+                }
+                let _ = std::fs::remove_file(&cp);
+            }
+        }
         let ev = json!({
             "property_id": self.property,
             "tier": self.tier,
@@ -285,7 +308,12 @@ impl Ctx {
             "infra_errors": infra,
         });
         let _ = std::fs::create_dir_all(format!("{VERIF_DIR}/evidence"));
-        let epath = format!("{VERIF_DIR}/evidence/{}.json", self.property);
+        let checked = std::env::var("VERIF_PROFILE").map(|v| v == "checked").unwrap_or(false);
+        let epath = if checked {
+            format!("{VERIF_DIR}/evidence/.{}.checked.json", self.property)
+        } else {
+            format!("{VERIF_DIR}/evidence/{}.json", self.property)
+        };
         if let Err(e) = std::fs::write(&epath, serde_json::to_string_pretty(&ev).unwrap()) {
             println!("INFRA: cannot write {epath}: {e}");
             return 2;
